@@ -3,10 +3,10 @@ claimed = {
  "C03": ("exploration", "Knob replay: one seeded call history of the real solver is executed under several max_batch_size values in each of three processes with different emulated device counts (real pmap over 1,2,3,4,8 host devices); every sweep of every execution is compared with a NumPy reference that has no notion of batches or devices (block Gauss-Seidel reference for the semi-asynchronous solver), and stop iterations, final values, gain, value history and the exact value of the returned policy are compared across partitions and device counts.", "6 (C03)"),
  "C06": ("exploration", "Seeded search over update schedules (random_seed x shuffle on/off x batch size x device count): the per-sweep permutation recorded by the guarded hook drives an independent block Gauss-Seidel reference that every returned vector must match; permutations must be redrawn per sweep and be reproducible from the seed (twin solver); converged runs must be within epsilon of V* computed by exact policy iteration.", "6 (C06)"),
  "C08": ("exploration", "Seeded search over call histories solve(k1), solve(k2), ... on one solver (before and after convergence) for all five solvers: every sweep is refined against an independent NumPy reference applied to the problem's own initial estimates, every stop/continue decision against the documented measure and threshold (with a guard band), iteration accounting per call, and the split history against a single solve(k1+k2+...) of the real code bit for bit.", "6 (C08)"),
- "C09": ("exploration", "Seeded search over interruption histories: chains of clean stops and kills at seeded iterations, restore()/load_checkpoint() routes, (f, m, sync/async) settings and writer schedules; every lifetime of the real solver must follow the uninterrupted run of the real code bit for bit at every sweep and end in the same final state; a clean stop at k must resume at exactly k.", "6 (C09)"),
- "C10": ("exploration", "Seeded search over save/restore histories (5 solvers x config / config-less problems x explicit and latest step x override combinations x new/same directory): the restored solver's every runtime field is compared bit for bit with a copy taken when save(step) was called, the configuration with the one the directory was written with, the original directory by tree digest; documented errors for missing config / no completed step.", "6 (C10)"),
- "C11": ("fault_enumeration", "Enumeration of every joint kill point (solver-loop seam x writer phase x perturbation) of small seeded worlds plus seeded sampling of crash-restore-crash chains over many worlds: after every simulated kill the restored state must be the newest committed step, bit-equal to the state recorded at save time, and continuing must reproduce the uninterrupted trajectory.", "6 (C11)"),
- "C12": ("exploration", "Seeded search over call histories (f, m, run lengths around multiples of f and around convergence, several solve() calls, restores into the same or a new directory with overrides, sync/async, all writer schedules, directories that survived a kill): the directory listing at every quiescent point is compared with a cadence/retention model and every retained step is read back through Orbax and compared with the state recorded for it.", "6 (C12)"),
+ "C09": ("exploration", "Seeded search over interruption histories: chains of clean stops and kills at seeded iterations, restore()/load_checkpoint() routes, (f, m, sync/async) settings and writer schedules; every lifetime of the real solver must follow the uninterrupted run of the real code bit for bit at every sweep and end in the same final state; a clean stop at k must resume at exactly k; shuffled semi-async resumes must stay within the error bound. Plus a bounded-exhaustive grid (every interruption iteration x restore route of small worlds), a fidelity phase (the same plans with real fresh processes and real SIGKILL must give the same history) and a README-boot-order phase in real fresh processes.", "6 (C09)"),
+ "C10": ("exploration", "Seeded search over save/restore histories (5 solvers x config / config-less / shipped problems x keyword and configuration-object construction x explicit and latest step x override combinations incl. frequency 0 x new/same directory): the restored solver's every runtime field is compared bit for bit with a copy taken when save(step) was called, the configuration with the one the directory was written with, the original directory by tree digest; documented errors for missing config / no completed step. Plus a grid phase (every solver class on every shipped problem rebuilt from YAML) and real-process fidelity / README-boot-order phases.", "6 (C10)"),
+ "C11": ("fault_enumeration", "Enumeration of every joint kill point (solver-loop seam incl. inside save() x writer phase x perturbation) of small seeded worlds plus seeded sampling of crash-restore-crash chains over many worlds: after every simulated kill the restored state must be the newest step whose save ever completed, bit-equal to the state recorded at save time, restorable through restore() when the problem is reconstructible, and continuing must reproduce the uninterrupted trajectory. A seeded subset of plans is also executed with real fresh processes and real SIGKILL at the same joint points (fidelity phase; README boot order phase).", "6 (C11)"),
+ "C12": ("exploration", "Seeded search over call histories (f, m, run lengths around multiples of f and around convergence, several solve() calls, restores into the same or a new directory with overrides incl. frequency 0, sync/async, all writer schedules, another solver object opening the directory while a write is pending, directories that survived a kill): the directory listing at every quiescent point is compared with a cadence/retention model and every retained step is read back through Orbax and compared with the state recorded for it. Plus the exhaustive box f in 1..4 x m in 1..3 x run length of small worlds and real-process fidelity / README-boot-order phases.", "6 (C12)"),
 }
 checks=[]
 for pid,(lvl,text,ref) in claimed.items():
